@@ -557,7 +557,7 @@ pub const C41: Check = Check {
     id: "C41",
     level: "exploration",
     rule: "metamorphic pairs on fresh caches: world W (several repositories) vs W' = W + a fault placed in one repository \
-           (unreachable, every manifest of that repository absent/garbage/stale, bad objects, missing files). For every CA not \
+           (unreachable, every manifest of that repository absent/garbage/stale, bad objects, missing files, a chain of valid CAs deeper than max-ca-depth, a certificate loop). For every CA not \
            published in that repository and not a descendant of one, the served per-CA payload (attribution by the generator's \
            per-CA origin AS ranges) must be identical in both runs (under unsafe-vrps=reject minus VRPs overlapping the affected \
            CAs' resources), and the faulty run must succeed. distinct = (fault kind, repositories, policy, affected/unaffected CA \
@@ -587,12 +587,28 @@ fn run_c41(ctx: &mut Ctx, rep: &mut Report) {
         let params = GenParams { tals: 1 + rng.usize(2), max_cas: 5 + rng.usize(8), max_depth: 1 + rng.usize(3), max_objects: 2 + rng.usize(4), repos, overlaps: rng.bool(), ..GenParams::default() };
         let w = generate(&mut rng, now_ts(), &params);
         let victim_repo = rng.usize(repos);
-        let kind = rng.usize(5);
+        let kind = rng.usize(7);
         let mut w2 = w.clone();
         let in_repo: Vec<usize> = w.cas.iter().filter(|c| c.repo == victim_repo).map(|c| c.id).collect();
         if in_repo.is_empty() { continue }
+        let mut max_ca_depth = 32usize;
+        if kind == 5 {
+            // content fault: the repository publishes a chain of otherwise valid CAs that goes deeper than max-ca-depth
+            let top = in_repo[rng.usize(in_repo.len())];
+            max_ca_depth = w.depth(top) + 1 + rng.usize(2);
+            let mut p = top;
+            for _ in 0..max_ca_depth - w.depth(top) + 1 + rng.usize(2) { p = add_child(&mut w2, &mut rng, p, victim_repo, 1); }
+        }
+        if kind == 6 {
+            // content fault: the repository publishes a certificate for a key already on its own chain (a loop)
+            let top = in_repo[rng.usize(in_repo.len())];
+            let leaf = add_child(&mut w2, &mut rng, top, victim_repo, 1);
+            let anc = { let mut chain = vec![top]; let mut p = top; while let Some(pp) = w2.cas[p].parent { chain.push(pp); p = pp; } chain[rng.usize(chain.len())] };
+            add_cycle(&mut w2, leaf, anc);
+        }
         for c in &in_repo {
             match kind {
+                5 | 6 => {}
                 0 => w2.cas[*c].unreachable = true,
                 1 => apply_point_fault(&mut w2, *c, PointFault::MftAbsent, &mut rng),
                 2 => apply_point_fault(&mut w2, *c, PointFault::MftStale, &mut rng),
@@ -600,7 +616,7 @@ fn run_c41(ctx: &mut Ctx, rep: &mut Report) {
                 _ => apply_point_fault(&mut w2, *c, PointFault::MissingFile, &mut rng),
             }
         }
-        let pol = Policy { unsafe_vrps: *rng.pick(&[Filter::Accept, Filter::Reject]), stale: Filter::Reject, ..Policy::default() };
+        let pol = Policy { unsafe_vrps: *rng.pick(&[Filter::Accept, Filter::Reject]), stale: Filter::Reject, max_ca_depth, ..Policy::default() };
         let mut observed = Vec::new();
         let mut ok = true;
         for (which, ww) in [(0, &w), (1, &w2)] {
@@ -637,7 +653,7 @@ fn run_c41(ctx: &mut Ctx, rep: &mut Report) {
             }
         }
         rep.class(format!("kind{kind}|repos{repos}|{:?}|aff{}|unaff{}", pol.unsafe_vrps, affected.len().min(4), unaffected.min(4)));
-        let kind_s = ["unreachable", "manifests absent", "manifests stale", "all objects bad", "missing file"][kind];
+        let kind_s = ["unreachable", "manifests absent", "manifests stale", "all objects bad", "missing file", "CA chain deeper than max-ca-depth", "certificate loop"][kind];
         if rep.samples.len() < 2 { rep.sample(json!({"fault_kind": kind_s, "victim_repo": victim_repo, "affected_cas": affected, "unaffected_cas": unaffected})); }
     }
 }
